@@ -192,7 +192,7 @@ CLASS_FILE = {
     "UnitaryAlignment": "pygamma_agreement/alignment.py", "Alignment": "pygamma_agreement/alignment.py",
     "SoftAlignment": "pygamma_agreement/alignment.py",
 }
-OWNED = {"Continuum": ["_annotations", "_categories"]}
+OWNED = {"Continuum": ["_annotations", "_categories"], "CorpusShufflingTool": ["_categories"]}
 
 
 class ObjT(T):
@@ -973,6 +973,11 @@ _prev_iter_value = Engine.iter_value
 
 def iter_value(self, v, st, node):
     v = deopt(self, v, st, False, node)
+    if isinstance(v, Opt) and isinstance(v.val, SList):
+        # iterating an Optional[list]: None is not iterable (TypeError)
+        self.oblige(st, z3.Not(v.isnone), f"not-None@{getattr(node, 'lineno', 0)}:iter", "exception-freedom", getattr(node, "lineno", None),
+                    "an Optional list is not None where it is iterated")
+        v = v.val
     if isinstance(v, MapView):
         o = _heap(st, v.owner)
         st.assume(*wf_set(o["keys"], o["nkeys"], o["kseq"], o["kidx"]))
